@@ -34,6 +34,10 @@ pub struct VM {
     instructions: Vec<u8>,
     ip: usize,
     bp: u16,
+
+    /// The garbage collector lives as long as the VM does, so that objects referenced
+    /// by global variables stay alive in between runs (e.g. in the REPL)
+    gc: GC,
 }
 
 impl VM {
@@ -49,6 +53,7 @@ impl VM {
             instructions: Vec::new(),
             ip: 0,
             bp: 0,
+            gc: GC::new(),
         }
     }
 
@@ -154,6 +159,14 @@ impl VM {
 
     /// Executes the given Bytecode inside the context of this VM
     pub fn run(&mut self, code: Bytecode) -> Result<Object, Error> {
+        // Use the garbage collector of this VM for this run, and give it back afterwards
+        let mut gc = std::mem::replace(&mut self.gc, GC::new());
+        let result = self.run_with_gc(code, &mut gc);
+        self.gc = gc;
+        result
+    }
+
+    fn run_with_gc(&mut self, code: Bytecode, gc: &mut GC) -> Result<Object, Error> {
         #[cfg(feature = "debug")]
         {
             println!("Bytecode (raw)= \n{:?}", &code.instructions);
@@ -176,9 +189,7 @@ impl VM {
         let constants = code.constants;
         let mut final_result = Object::null();
 
-        // Construct a new garbage collector
-        // And allow to manage memory for constants
-        let gc = &mut GC::new();
+        // Allow the garbage collector to manage memory for constants
         for c in &constants {
             gc.maybe_trace(*c)
         }
